@@ -167,9 +167,10 @@ func decodeStringValue(reader ByteRuneReader, flag int32) (string, error) {
 		if err != nil {
 			return "", err
 		}
-		if newLength < length {
+		if newLength <= cap(buf) {
 			buf = buf[:newLength]
-			length = newLength
+		} else {
+			buf = make([]rune, newLength)
 		}
 	}
 
